@@ -2,6 +2,7 @@
 a real run_mapping on a generated scenario, its recorded bootstrap subsets, and
 the recomputation of every vote by the extracted model (Vote.v, tag 201)."""
 import json
+import pathlib
 import math
 from fractions import Fraction
 
@@ -249,6 +250,100 @@ def analyse_run(ctx, sc, cfg, res, label):
     return problems
 
 
+
+def output_files_problems(sc, cfg, res):
+    """C15 / C03 on the files of a real run: the HDF5 output read back with hdf5_to_blob and the CSV must
+    tell the same story as the JSON results; the embedded taxonomy must be the STORED taxonomy (not the
+    reduced one) without its cell lists."""
+    problems = []
+    out = res['output']
+    results = out['results']
+    gt = sc.tree
+    # embedded taxonomy
+    try:
+        emb = json.loads(out['taxonomy_tree']) if isinstance(out.get('taxonomy_tree'), str) else out.get('taxonomy_tree')
+    except Exception:
+        emb = None
+    if emb is None:
+        problems.append(('property', 'no taxonomy_tree in the JSON output', 'c15-embedded-tree'))
+    else:
+        want = gt.data
+        if emb.get('hierarchy') != want['hierarchy']:
+            problems.append(('property', f"embedded taxonomy has hierarchy {emb.get('hierarchy')}, the input taxonomy {want['hierarchy']}",
+                             'c15-embedded-tree'))
+        else:
+            for lv in want['hierarchy'][:-1]:
+                a = {k: sorted(v) for k, v in emb.get(lv, {}).items()}
+                b = {k: sorted(v) for k, v in want[lv].items()}
+                if a != b:
+                    problems.append(('property', f'embedded taxonomy differs from the input taxonomy at level {lv}', 'c15-embedded-tree'))
+                    break
+            leaf = want['hierarchy'][-1]
+            if sorted(emb.get(leaf, {}).keys()) != sorted(want[leaf].keys()):
+                problems.append(('property', 'embedded taxonomy has other leaves than the input taxonomy', 'c15-embedded-tree'))
+    # HDF5 output read back
+    h5 = cfg.get('hdf5_result_path')
+    if h5 and pathlib.Path(h5).exists():
+        try:
+            from cell_type_mapper.utils.output_utils import hdf5_to_blob
+            back = hdf5_to_blob(h5)
+            br = back['results']
+        except Exception as e:
+            problems.append(('property', f'hdf5_to_blob cannot read the HDF5 output of the run: {type(e).__name__}: {e}', 'c15-hdf5-unreadable'))
+            br = None
+        if br is not None:
+            if [r.get('cell_id') for r in br] != [r.get('cell_id') for r in results]:
+                problems.append(('property', 'HDF5 output lists other cells / another order than the JSON output', 'c15-hdf5-vs-json'))
+            else:
+                done = False
+                for a, b in zip(results, br):
+                    for lv in gt.levels:
+                        x, y = a.get(lv), b.get(lv)
+                        if (x is None) != (y is None):
+                            problems.append(('property', f"cell {a['cell_id']}: level {lv} present in only one of JSON / HDF5", 'c15-hdf5-vs-json'))
+                            done = True
+                            break
+                        if x is None:
+                            continue
+                        for k in ('assignment', 'directly_assigned'):
+                            if x.get(k) != y.get(k):
+                                problems.append(('property', f"cell {a['cell_id']} level {lv}: {k} {x.get(k)!r} in JSON, {y.get(k)!r} in HDF5", 'c15-hdf5-vs-json'))
+                                done = True
+                        for k in ('bootstrapping_probability', 'avg_correlation', 'aggregate_probability'):
+                            if x.get(k) is None or y.get(k) is None or abs(x[k] - y[k]) > 1e-12:
+                                problems.append(('property', f"cell {a['cell_id']} level {lv}: {k} {x.get(k)!r} in JSON, {y.get(k)!r} in HDF5", 'c15-hdf5-vs-json'))
+                                done = True
+                        for k in ('runner_up_assignment', 'runner_up_probability', 'runner_up_correlation'):
+                            u, v = x.get(k), y.get(k)
+                            if (u is None) != (v is None) or (u is not None and (len(u) != len(v) or any(
+                                    (p != q) if isinstance(p, str) else abs(p - q) > 1e-12 for p, q in zip(u, v)))):
+                                problems.append(('property', f"cell {a['cell_id']} level {lv}: {k} {u!r} in JSON, {v!r} in HDF5", 'c15-hdf5-vs-json'))
+                                done = True
+                        if done:
+                            break
+                    if done:
+                        break
+    # CSV: one row per record, in order, label columns = JSON assignments
+    cp = cfg.get('csv_result_path')
+    if cp and pathlib.Path(cp).exists():
+        import csv as _csv
+        lines = [ln for ln in open(cp, newline='').read().splitlines(True) if not ln.startswith('#')]
+        rows = list(_csv.reader(lines))
+        if rows:
+            header, body = rows[0], rows[1:]
+            if [r[header.index('cell_id')] for r in body] != [r['cell_id'] for r in results]:
+                problems.append(('property', 'CSV rows are not one per record in query order', 'c15-csv-vs-json'))
+            else:
+                for r, row in zip(results, body):
+                    rowd = dict(zip(header, row))
+                    for lv in gt.levels:
+                        if rowd.get(f'{lv}_label') != r[lv]['assignment']:
+                            problems.append(('property', f"cell {r['cell_id']}: CSV {lv}_label {rowd.get(lv + '_label')!r}, JSON {r[lv]['assignment']!r}",
+                                             'c15-csv-vs-json'))
+                            break
+    return problems
+
+
 def gen_config_variation(rng, sc):
     lv = sc.tree.levels
     drop = None
@@ -330,7 +425,7 @@ def run_batch(ctx, n_runs, prefixes, label, max_levels=4, max_leaves=8, raise_is
             import shutil
             shutil.rmtree(d, ignore_errors=True)
             continue
-        problems = analyse_run(ctx, sc, cfg, res, f'{label}{k}')
+        problems = analyse_run(ctx, sc, cfg, res, f'{label}{k}') + output_files_problems(sc, cfg, res)
         for kind, msg, cls in problems:
             if not any(cls.startswith(p) for p in prefixes):
                 continue
